@@ -45,15 +45,21 @@ func (p verifC03Priv) Sign(b []byte) (base.Signature, error) {
 }
 
 type verifC03SF struct {
-	node base.Address
-	pub  base.Publickey
-	fact base.BallotFact
+	node   base.Address
+	pub    base.Publickey
+	fact   base.BallotFact
+	forged bool // the signature does not verify (ideal scheme: a sign fact nobody signed)
 }
 
 func (s verifC03SF) HashBytes() []byte {
 	return util.ConcatBytesSlice(s.node.Bytes(), s.fact.Hash().Bytes())
 }
-func (s verifC03SF) IsValid([]byte) error       { return nil }
+func (s verifC03SF) IsValid([]byte) error {
+	if s.forged {
+		return util.ErrInvalid.Errorf("signature verification failed")
+	}
+	return nil
+}
 func (s verifC03SF) Fact() base.Fact            { return s.fact }
 func (s verifC03SF) Signs() []base.Sign         { return nil }
 func (s verifC03SF) NodeSigns() []base.NodeSign { return nil }
@@ -89,6 +95,12 @@ func verifC03NewWorld(n int) *verifC03World {
 
 // voteproof builds an INIT voteproof (plain, or with expels) for the majority fact `variant`.
 func (w *verifC03World) voteproof(roles []int, signs int, variant int, th base.Threshold) base.Voteproof {
+	return w.voteproofForged(roles, signs, variant, th, 0)
+}
+
+// voteproofForged: as voteproof; forged > 0 makes the sign fact of the forged-th voter one whose
+// signature does not verify.
+func (w *verifC03World) voteproofForged(roles []int, signs int, variant int, th base.Threshold, forged int) base.Voteproof {
 	var expels []base.SuffrageExpelOperation
 	var expelfacts []util.Hash
 	for i, r := range roles {
@@ -113,7 +125,7 @@ func (w *verifC03World) voteproof(roles []int, signs int, variant int, th base.T
 	var sfs []base.BallotSignFact
 	for i, r := range roles {
 		if r == verifC03Votes {
-			sfs = append(sfs, verifC03SF{node: w.nodes[i].Address(), pub: w.nodes[i].Publickey(), fact: fact})
+			sfs = append(sfs, verifC03SF{node: w.nodes[i].Address(), pub: w.nodes[i].Publickey(), fact: fact, forged: len(sfs)+1 == forged})
 		}
 	}
 	bvp := baseVoteproof{
@@ -230,11 +242,18 @@ func VerifC03SingleVoteproof() {
 	if k > 0 {
 		s = verifrt.NondetChoice("signs", n)
 	}
-	vp := w.voteproof(r, s, 0, th)
+	// full validation includes the signatures: at most one of the sign facts (any position) is
+	// one whose signature does not verify
+	forged := 0
+	if votes > 0 {
+		forged = verifrt.NondetChoice("forged", votes+1)
+	}
+	vp := w.voteproofForged(r, s, 0, th, forged)
 	if !w.accepted(vp) {
 		return
 	}
 	verifrt.Reach("C03.single.accepted")
+	verifrt.Assert(forged == 0, "C03.single.accepted-by-full-validation(signatures)-has-no-sign-fact-whose-signature-fails")
 	q := th.Threshold(uint(n))
 	if k == 0 {
 		verifrt.Assert(uint(votes) >= q, "C03.single.plain-majority-voteproof-has-the-required-count-of-votes")
